@@ -207,6 +207,126 @@ def _java_main() -> str:
     return "\n".join(lines)
 
 
+def _cpp_wide(s: str) -> str:
+    out = ['std::wstring(L"']
+    for ch in s:
+        if ch in '"\\':
+            out.append("\\" + ch)
+        elif ord(ch) < 32 or ord(ch) > 126:
+            out.append(f"\\U{ord(ch):08x}")
+        else:
+            out.append(ch)
+    out.append('")')
+    return "".join(out)
+
+
+def _cpp_main() -> str:
+    lit = {"Red": "kRed", "Dark_green": "kDarkGreen", "Quoted": "kQuoted"}
+
+    def item(args: Any) -> str:
+        name, note, color, weight = args
+        return ("std::make_shared<types::Item>(" + _cpp_wide(name) + ", "
+                + ("common::nullopt" if note is None else f"common::optional<std::wstring>({_cpp_wide(note)})") + ", "
+                + ("common::nullopt" if color is None else f"common::optional<types::Color>(types::Color::{lit[color]})")
+                + ", " + ("common::nullopt" if weight is None else f"common::optional<int64_t>(int64_t({weight}))") + ")")
+
+    def formula(args: Any) -> str:
+        a, b, c, p, q = args
+        return (f"std::make_shared<types::Formula>(int64_t({a}), int64_t({b}), int64_t({c}), "
+                f"{'true' if p else 'false'}, {'true' if q else 'false'})")
+    lines = ['#include "dummy/common.hpp"', '#include "dummy/constants.hpp"', '#include "dummy/types.hpp"',
+             '#include "dummy/verification.hpp"', '#include "dummy/wstringification.hpp"', "#include <algorithm>",
+             "#include <cstdio>", "#include <memory>", "#include <string>", "#include <vector>", "using namespace dummy;",
+             # UTF-16 code units like the Java side, so that the three outputs are comparable
+             "static std::string Esc(const std::wstring& s) {\n  std::string out; char buf[16];\n"
+             "  for (wchar_t wc : s) {\n    unsigned long c = static_cast<unsigned long>(wc);\n"
+             "    if (c > 0xFFFF) { c -= 0x10000; std::snprintf(buf, sizeof(buf), \"\\\\u%04lx\\\\u%04lx\", 0xD800 + (c >> 10),"
+             " 0xDC00 + (c & 0x3FF)); out += buf; }\n"
+             "    else if (c < 32 || c > 126 || c == '|' || c == '\\\\') { std::snprintf(buf, sizeof(buf), \"\\\\u%04lx\", c);"
+             " out += buf; }\n    else { out += static_cast<char>(c); }\n  }\n  return out;\n}",
+             "static void Report(const char* label, const std::shared_ptr<types::IClass>& that) {\n"
+             "  std::vector<std::string> out;\n"
+             "  for (const verification::Error& e : verification::RecursiveVerification(that)) {\n"
+             "    out.push_back(Esc(e.path.ToWstring()) + \"|\" + Esc(e.cause));\n  }\n"
+             "  std::sort(out.begin(), out.end());\n  std::printf(\"I|%s|%zu\\n\", label, out.size());\n"
+             "  for (const std::string& s : out) { std::printf(\"E|%s|%s\\n\", label, s.c_str()); }\n}",
+             "int main() {"]
+    for k, a in enumerate(FORMULA_ARGS):
+        lines.append(f'  Report("formula {k}", {formula(a)});')
+    for k, a in enumerate(ITEM_ARGS):
+        lines.append(f'  Report("item {k}", {item(a)});')
+    for k, (items, fi) in enumerate(BOX_ARGS):
+        its = ", ".join(item(ITEM_ARGS[i]) for i in items)
+        f_arg = ("common::nullopt" if fi is None
+                 else f"common::optional<std::shared_ptr<types::IFormula> >({formula(FORMULA_ARGS[fi])})")
+        lines.append(f'  Report("box {k}", std::make_shared<types::Carton>('
+                     f"std::vector<std::shared_ptr<types::IItem> >{{{its}}}, {f_arg}));")
+    lines.append('  std::printf("C|Default_name|%s\\n", Esc(constants::kDefaultName).c_str());')
+    lines.append('  std::printf("C|Answer|%lld\\n", static_cast<long long>(constants::kAnswer));')
+    lines.append('  std::printf("C|Enabled|%s\\n", constants::kEnabled ? "true" : "false");')
+    for n in ("Red", "Dark_green", "Quoted"):
+        lines.append(f'  std::printf("L|{n}|%s\\n", Esc(wstringification::to_wstring(types::Color::{lit[n]})).c_str());')
+    lines += ["  return 0;", "}"]
+    return "\n".join(lines)
+
+
+def _parse_run(stdout: str, prefix: str) -> Tuple[Dict[str, List[str]], Dict[str, str]]:
+    res: Dict[str, List[str]] = {}
+    consts: Dict[str, str] = {}
+    for line in stdout.splitlines():
+        tag, _, rest = line.partition("|")
+        label, _, payload = rest.partition("|")
+        if tag == "I":
+            res.setdefault(label, [])
+        elif tag == "E":
+            path, _, cause = payload.partition("|")
+            if cause.startswith(prefix):
+                cause = cause[len(prefix):]
+            res.setdefault(label, []).append(path.lstrip(".") + "|" + cause)
+        elif tag in ("C", "L"):
+            consts[tag + "|" + label] = payload
+    return res, consts
+
+
+def _cpp_side(root: pathlib.Path, model: pathlib.Path) -> Any:
+    """(results, constants) of the generated C++ SDK, or a failure dict."""
+    if shutil.which("g++") is None:
+        return None
+    out = root / "cpp"
+    out.mkdir()
+    stdout, stderr = io.StringIO(), io.StringIO()
+    try:
+        rc = cg_main.execute(cg_main.Parameters(model_path=model, target=cg_main.Target.CPP, snippets_dir=root / "snippets",
+                                                output_dir=out, cache_model=False), stdout=stdout, stderr=stderr)
+    except BaseException as e:  # noqa
+        return {"kind": "cpp-generator", "observed": f"the cpp generator raised {type(e).__name__}: {str(e)[:200]}"}
+    if rc != 0:
+        return {"kind": "cpp-generator", "observed": f"the cpp generator reported: {stderr.getvalue()[:400]}"}
+    (root / "main.cpp").write_text(_cpp_main(), encoding="utf-8")
+    sources = [str(p) for p in sorted((out / "src").glob("*.cpp")) if p.name not in ("jsonization.cpp", "xmlization.cpp")]
+    stubs = pathlib.Path(__file__).resolve().parent / "stubs_real"
+    objs = []
+    procs = []
+    for src in sources + [str(root / "main.cpp")]:
+        obj = str(root / (pathlib.Path(src).stem + ".o"))
+        objs.append(obj)
+        procs.append((src, subprocess.Popen(["g++", "-std=c++17", "-O0", "-w", "-I", str(out / "include"), "-I", str(stubs),
+                                             "-c", src, "-o", obj], stdout=subprocess.PIPE, stderr=subprocess.PIPE, text=True)))
+    for src, pr in procs:
+        _, err = pr.communicate(timeout=1500)
+        if pr.returncode != 0:
+            first = next((ln for ln in err.splitlines() if "error" in ln), err[:200])
+            return {"kind": "cpp-does-not-compile", "observed": "the generated C++ SDK (sources without third-party "
+                    "includes) does not compile: " + first.replace(str(root) + "/", "")[:300]}
+    link = subprocess.run(["g++", "-o", str(root / "cppmain")] + objs, capture_output=True, text=True, timeout=900)
+    if link.returncode != 0:
+        return {"kind": "cpp-does-not-link", "observed": "linking fails: " + link.stderr[:300]}
+    run = subprocess.run([str(root / "cppmain")], capture_output=True, text=True, timeout=600)
+    if run.returncode != 0:
+        return {"kind": "cpp-run", "observed": f"the C++ run failed ({run.returncode}): " + (run.stderr or run.stdout)[-400:]}
+    return _parse_run(run.stdout, "Invariant violated:\\u000a")
+
+
 def _esc(s: str) -> str:
     out = []
     for unit in [s[i:i + 1] for i in range(len(s))]:
@@ -282,6 +402,11 @@ def bounded(seed: int = 0, **_: Any) -> Dict[str, Any]:
                 java.setdefault(label, []).append(path + "|" + cause)
             elif tag in ("C", "L"):
                 java_const[tag + "|" + label] = payload
+        # ---- C++ side (types, verification, constants, wstringification; no JSON / XML)
+        cpp = _cpp_side(root, model)
+        if isinstance(cpp, dict):
+            failures.append(cpp)
+            cpp = None
         # ---- Python side
         sys.path.insert(0, str(root / "python"))
         try:
@@ -320,6 +445,17 @@ def bounded(seed: int = 0, **_: Any) -> Dict[str, Any]:
                     failures.append({"instance": label, "kind": "verdict",
                                      "observed": f"the Python SDK reports {len(want)} error(s), the Java SDK {len(got)}; only "
                                                  f"Python: {only_py[:3]}; only Java: {only_java[:3]}"})
+                if cpp is not None:
+                    cases += 1
+                    got_cpp = cpp[0].get(label)
+                    if got_cpp is None:
+                        failures.append({"instance": label, "observed": "the C++ run has no result for this instance"})
+                    elif sorted(got_cpp) != want:
+                        only_py = [x for x in want if x not in got_cpp]
+                        only_cpp = [x for x in got_cpp if x not in want]
+                        failures.append({"instance": label, "kind": "verdict-cpp",
+                                         "observed": f"the Python SDK reports {len(want)} error(s), the C++ SDK "
+                                                     f"{len(got_cpp)}; only Python: {only_py[:3]}; only C++: {only_cpp[:3]}"})
             consts = {"C|Default_name": _esc(K.DEFAULT_NAME), "C|Answer": str(K.ANSWER), "C|Enabled": "true" if K.ENABLED else "false"}
             for n in ("Red", "Dark_green", "Quoted"):
                 consts["L|" + n] = _esc(getattr(T.Color, n.upper()).value)
@@ -328,9 +464,15 @@ def bounded(seed: int = 0, **_: Any) -> Dict[str, Any]:
                 if java_const.get(key) != want_c:
                     failures.append({"constant": key, "kind": "constant",
                                      "observed": f"Python: {want_c!r}, Java: {java_const.get(key)!r}"})
+                if cpp is not None:
+                    cases += 1
+                    if cpp[1].get(key) != want_c:
+                        failures.append({"constant": key, "kind": "constant-cpp",
+                                         "observed": f"Python: {want_c!r}, C++: {cpp[1].get(key)!r}"})
         finally:
             sys.path.remove(str(root / "python"))
             for m in [m for m in sys.modules if m == module or m.startswith(module + ".")]:
                 del sys.modules[m]
     return {"cases": cases, "distinct": cases, "failures": failures[:6], "exhaustive": False,
-            "samples": [{"instances": len(FORMULA_ARGS) + len(ITEM_ARGS) + len(BOX_ARGS), "targets": ["python", "java"]}]}
+            "samples": [{"instances": len(FORMULA_ARGS) + len(ITEM_ARGS) + len(BOX_ARGS),
+                         "targets": ["python", "java"] + (["cpp"] if cpp is not None else [])}]}
